@@ -152,90 +152,6 @@ Section P.
   Lemma last_qrow (t : list tet) : t <> [] -> hd 0%Z (last (map qrow t) []) = 4%Z.
   Proof. induction t as [|[[[a b] c] d] t IH]; [contradiction|]. intros _. destruct t as [|t' ts]; [reflexivity|]. cbn [map last] in *. apply IH. discriminate. Qed.
 
-  (* ---- C14: what write_vtk writes, read_vtk reads back: identical connectivity, coordinates rounded to single precision *)
-  Theorem vtk_tria_round_trip (v : list (K * K * K)) (t : list tri) : t <> [] ->
-    read_vtk_tria round32 zK (write_vtk_tria v t) = Some (map r3 v, t).
-  Proof.
-    intros Ht. unfold write_vtk_tria, read_vtk_tria, read_vtk_cells, vtk_header.
-    set (L1 := [TW "#"; TW "vtk"; TW "DataFile"; TW "Version"; TW "1.0"] : list tok).
-    set (L2 := [TW "vtk"; TW "output"] : list tok). set (L3 := [TW "ASCII"] : list tok).
-    set (L4 := [TW "DATASET"; TW "POLYDATA"] : list tok).
-    set (LP := [TW "POINTS"; TZ (Z.of_nat (List.length v)); TW "float"] : list tok).
-    set (LC := [TW "POLYGONS"; TZ (Z.of_nat (List.length t)); TZ (Z.of_nat (4 * List.length t))] : list tok).
-    change (map (fun '(x, y, z) => [TF x; TF y; TF z]) v) with (map vline v).
-    change (map (fun '(a, b, c) => [TZ 3; TZ (Z.of_nat a); TZ (Z.of_nat b); TZ (Z.of_nat c)]) t) with (map tline t).
-    set (Rest5 := lines_of (LC :: map tline t)).
-    assert (E : lines_of ([L1; L2; L3; L4] ++ [LP] ++ map vline v ++ [LC] ++ map tline t)
-                = line_of L1 ++ line_of L2 ++ line_of L3 ++ line_of L4 ++ (lines_of (LP :: map vline v) ++ Rest5)).
-    { unfold Rest5. rewrite !lines_of_app. cbn [app]. rewrite !lines_of_cons. unfold lines_of at 1. cbn [flat_map].
-      rewrite <- !app_assoc. cbn [app]. rewrite ?app_nil_r. reflexivity. }
-    rewrite E. clear E.
-    rewrite skip_two; [| rewrite !app_length; unfold line_of; rewrite !app_length; cbn [List.length map]; lia | reflexivity | reflexivity].
-    (* find ASCII *)
-    cbn [find_ascii starts_with_word L2 String.eqb Ascii.eqb Bool.eqb]. rewrite readline_line.
-    cbn [find_ascii starts_with_word L3 String.eqb Ascii.eqb Bool.eqb].
-    rewrite readline_line. unfold L4. cbn [String.eqb Ascii.eqb Bool.eqb orb negb].
-    assert (S5 : starts_tok Rest5) by (unfold Rest5; rewrite lines_of_cons; apply line_of_starts; discriminate).
-    unfold LP. rewrite (read_points_written v Rest5 S5).
-    unfold Rest5. rewrite lines_of_cons, readline_line. unfold LC.
-    cbn [String.eqb Ascii.eqb Bool.eqb orb negb].
-    replace (Z.of_nat (4 * List.length t) =? Z.of_nat 4 * Z.of_nat (List.length t))%Z with true by (symmetry; apply Z.eqb_eq; lia).
-    cbn [negb]. rewrite Nat2Z.id.
-    rewrite <- (app_nil_r (lines_of (map tline t))), <- tlines_len.
-    rewrite (take_nums_lines _ _ (tlines_num t) (or_introl eq_refl)). rewrite Nat.eqb_refl. cbn [negb].
-    rewrite tlines_tokZ.
-    rewrite (chunkn_concat 4 (map trow t)).
-    - destruct (map trow t) as [|r0 rs] eqn:Em; [destruct t; [contradiction|discriminate]|]. rewrite <- Em.
-      rewrite last_trow by assumption. cbn [Z.of_nat Z.eqb Pos.eqb negb Pos.of_succ_nat Pos.succ].
-      rewrite rows3_back. reflexivity.
-    - lia.
-    - apply Forall_forall. intros r Hr. apply in_map_iff in Hr. destruct Hr as ([[a b] c] & <- & _). reflexivity.
-    - assert (L : List.length (List.concat (map trow t)) = (4 * List.length t)%nat).
-      { clear. induction t as [|[[a b] c] t IH]; [reflexivity|]. cbn [map List.concat trow app List.length]. rewrite IH. lia. }
-      rewrite L, map_length. lia.
-  Qed.
-  Theorem vtk_tet_round_trip (v : list (K * K * K)) (t : list tet) : t <> [] ->
-    read_vtk_tet round32 zK (write_vtk_tet v t) = Some (map r3 v, t).
-  Proof.
-    intros Ht. unfold write_vtk_tet, read_vtk_tet, read_vtk_cells, vtk_header.
-    set (L1 := [TW "#"; TW "vtk"; TW "DataFile"; TW "Version"; TW "1.0"] : list tok).
-    set (L2 := [TW "vtk"; TW "output"] : list tok). set (L3 := [TW "ASCII"] : list tok).
-    set (L4 := [TW "DATASET"; TW "POLYDATA"] : list tok).
-    set (LP := [TW "POINTS"; TZ (Z.of_nat (List.length v)); TW "float"] : list tok).
-    set (LC := [TW "POLYGONS"; TZ (Z.of_nat (List.length t)); TZ (Z.of_nat (5 * List.length t))] : list tok).
-    change (map (fun '(x, y, z) => [TF x; TF y; TF z]) v) with (map vline v).
-    change (map (fun '(a, b, c, d) => [TZ 4; TZ (Z.of_nat a); TZ (Z.of_nat b); TZ (Z.of_nat c); TZ (Z.of_nat d)]) t) with (map qline t).
-    set (Rest5 := lines_of (LC :: map qline t)).
-    assert (E : lines_of ([L1; L2; L3; L4] ++ [LP] ++ map vline v ++ [LC] ++ map qline t)
-                = line_of L1 ++ line_of L2 ++ line_of L3 ++ line_of L4 ++ (lines_of (LP :: map vline v) ++ Rest5)).
-    { unfold Rest5. rewrite !lines_of_app. cbn [app]. rewrite !lines_of_cons. unfold lines_of at 1. cbn [flat_map].
-      rewrite <- !app_assoc. cbn [app]. rewrite ?app_nil_r. reflexivity. }
-    rewrite E. clear E.
-    rewrite skip_two; [| rewrite !app_length; unfold line_of; rewrite !app_length; cbn [List.length map]; lia | reflexivity | reflexivity].
-    (* find ASCII *)
-    cbn [find_ascii starts_with_word L2 String.eqb Ascii.eqb Bool.eqb]. rewrite readline_line.
-    cbn [find_ascii starts_with_word L3 String.eqb Ascii.eqb Bool.eqb].
-    rewrite readline_line. unfold L4. cbn [String.eqb Ascii.eqb Bool.eqb orb negb].
-    assert (S5 : starts_tok Rest5) by (unfold Rest5; rewrite lines_of_cons; apply line_of_starts; discriminate).
-    unfold LP. rewrite (read_points_written v Rest5 S5).
-    unfold Rest5. rewrite lines_of_cons, readline_line. unfold LC.
-    cbn [String.eqb Ascii.eqb Bool.eqb orb negb].
-    replace (Z.of_nat (5 * List.length t) =? Z.of_nat 5 * Z.of_nat (List.length t))%Z with true by (symmetry; apply Z.eqb_eq; lia).
-    cbn [negb]. rewrite Nat2Z.id.
-    rewrite <- (app_nil_r (lines_of (map qline t))), <- qlines_len.
-    rewrite (take_nums_lines _ _ (qlines_num t) (or_introl eq_refl)). rewrite Nat.eqb_refl. cbn [negb].
-    rewrite qlines_tokZ.
-    rewrite (chunkn_concat 5 (map qrow t)).
-    - destruct (map qrow t) as [|r0 rs] eqn:Em; [destruct t; [contradiction|discriminate]|]. rewrite <- Em.
-      rewrite last_qrow by assumption. cbn [Z.of_nat Z.eqb Pos.eqb negb Pos.of_succ_nat Pos.succ].
-      rewrite rows4_back. reflexivity.
-    - lia.
-    - apply Forall_forall. intros r Hr. apply in_map_iff in Hr. destruct Hr as ([[[a b] c] d] & <- & _). reflexivity.
-    - assert (L : List.length (List.concat (map qrow t)) = (5 * List.length t)%nat).
-      { clear. induction t as [|[[[a b] c] d] t IH]; [reflexivity|]. cbn [map List.concat qrow app List.length]. rewrite IH. lia. }
-      rewrite L, map_length. lia.
-  Qed.
-
   (* ---- truncation: every proper line-prefix of a written VTK file is rejected (no mesh) *)
   Fixpoint ntoks (s : file) : nat := match s with [] => 0 | Tok _ :: tl => S (ntoks tl) | EOL :: tl => ntoks tl end.
   Lemma take_nums_le (s : file) : forall cnt, (List.length (fst (take_nums s cnt)) <= ntoks s)%nat.
@@ -268,22 +184,43 @@ Section P.
 
   Lemma starts_tok_nil : starts_tok []. Proof. left; reflexivity. Qed.
 
-  Section Trunc.
-    Context {C : Type} (cline : C -> list tok) (w : nat)
-            (cline_len : forall c, List.length (cline c) = S w).
+
+  (* ---- the part of a written VTK file up to the cells line, generic in the kind of cell *)
+  Section Gen.
+    Context {C : Type} (cline : C -> list tok) (w : nat) (cline_len : forall c, List.length (cline c) = S w).
     Definition vtk_lines (v : list (K * K * K)) (t : list C) : list (list tok) :=
       vtk_header ++ [[TW "POINTS"; TZ (Z.of_nat (List.length v)); TW "float"]] ++ map vline v
         ++ [[TW "POLYGONS"; TZ (Z.of_nat (List.length t)); TZ (Z.of_nat (S w * List.length t))]] ++ map cline t.
+    Definition cells_line (t : list C) : list tok := [TW "POLYGONS"; TZ (Z.of_nat (List.length t)); TZ (Z.of_nat (S w * List.length t))].
     Lemma clines_len (t : list C) : List.length (List.concat (map cline t)) = (S w * List.length t)%nat.
     Proof. induction t as [|c t IH]; [cbn; lia|]. cbn [map List.concat List.length]. rewrite app_length, cline_len, IH. lia. Qed.
 
-    Lemma vtk_cells_truncated (v : list (K * K * K)) (t : list C) n : (n < List.length (vtk_lines v t))%nat ->
-      read_vtk_cells round32 zK w (lines_of (firstn n (vtk_lines v t))) = None.
+    (* header + POINTS section + one more line + rest: the pre-part succeeds and hands over that line and what follows *)
+    Lemma pre_ok_gen (v : list (K * K * K)) (cl : list tok) (rest : list (list tok)) : cl <> [] ->
+      read_vtk_pre round32 zK (lines_of (vtk_header ++ [[TW "POINTS"; TZ (Z.of_nat (List.length v)); TW "float"]] ++ map vline v
+                                         ++ [cl] ++ rest))
+      = Some (map r3 v, cl, lines_of rest).
     Proof.
-      intros Hn. unfold vtk_lines, vtk_header in *.
+      intros Hcl. unfold vtk_header, read_vtk_pre. cbn [app]. rewrite !lines_of_cons.
+      rewrite skip_two; [| unfold line_of; rewrite !app_length; cbn [List.length map]; lia | reflexivity | reflexivity].
+      cbn [find_ascii starts_with_word String.eqb Ascii.eqb Bool.eqb]. rewrite readline_line.
+      cbn [find_ascii starts_with_word String.eqb Ascii.eqb Bool.eqb]. rewrite readline_line.
+      cbn [String.eqb Ascii.eqb Bool.eqb orb negb].
+      rewrite lines_of_app, app_assoc, <- lines_of_cons.
+      rewrite (read_points_written v); [| cbn [app]; rewrite lines_of_cons; apply line_of_starts; exact Hcl].
+      cbn [app]. rewrite lines_of_cons, readline_line. reflexivity.
+    Qed.
+    Lemma pre_ok (v : list (K * K * K)) (t : list C) (rest : list (list tok)) :
+      read_vtk_pre round32 zK (lines_of (vtk_header ++ [[TW "POINTS"; TZ (Z.of_nat (List.length v)); TW "float"]] ++ map vline v
+                                         ++ [cells_line t] ++ rest))
+      = Some (map r3 v, cells_line t, lines_of rest).
+    Proof. apply pre_ok_gen. discriminate. Qed.
+    (* fewer lines than header + POINTS section + cells line: no pre-part *)
+    Lemma pre_truncated (v : list (K * K * K)) (t : list C) n : (n < 6 + List.length v)%nat ->
+      read_vtk_pre round32 zK (lines_of (firstn n (vtk_lines v t))) = None.
+    Proof.
+      intros Hn. unfold vtk_lines, vtk_header, read_vtk_pre.
       set (LP := [TW "POINTS"; TZ (Z.of_nat (List.length v)); TW "float"] : list tok) in *.
-      set (LC := [TW "POLYGONS"; TZ (Z.of_nat (List.length t)); TZ (Z.of_nat (S w * List.length t))] : list tok) in *.
-      unfold read_vtk_cells.
       destruct n as [|[|[|[|[|m]]]]]; cbn [app firstn].
       - reflexivity.
       - rewrite lines_of_cons. cbn [lines_of flat_map]. rewrite app_nil_r.
@@ -297,9 +234,7 @@ Section P.
         cbn [find_ascii starts_with_word String.eqb Ascii.eqb Bool.eqb]. rewrite readline_line.
         cbn [find_ascii starts_with_word String.eqb Ascii.eqb Bool.eqb]. rewrite readline_line.
         cbn [String.eqb Ascii.eqb Bool.eqb orb negb]. unfold read_points. cbn [readline]. reflexivity.
-      - (* header and POINTS line present *)
-        cbn [List.length app] in Hn. rewrite !app_length in Hn. cbn [List.length] in Hn. rewrite !map_length in Hn.
-        rewrite !lines_of_cons. rewrite skip_two; [| unfold line_of; rewrite !app_length; cbn [List.length map]; lia | reflexivity | reflexivity].
+      - rewrite !lines_of_cons. rewrite skip_two; [| unfold line_of; rewrite !app_length; cbn [List.length map]; lia | reflexivity | reflexivity].
         cbn [find_ascii starts_with_word String.eqb Ascii.eqb Bool.eqb]. rewrite readline_line.
         cbn [find_ascii starts_with_word String.eqb Ascii.eqb Bool.eqb]. rewrite readline_line.
         cbn [String.eqb Ascii.eqb Bool.eqb orb negb].
@@ -307,54 +242,192 @@ Section P.
         destruct (Nat.lt_ge_cases m (List.length v)) as [Hlt|Hge].
         + replace (m - List.length v)%nat with 0%nat by lia. cbn [firstn]. rewrite app_nil_r, firstn_map.
           rewrite <- lines_of_cons. unfold LP. rewrite (read_points_truncated v m Hlt). reflexivity.
-        + rewrite firstn_all2 by (rewrite map_length; lia).
-          remember (m - List.length v)%nat as j eqn:Ej. destruct j as [|j].
-          * cbn [firstn]. rewrite app_nil_r, <- lines_of_cons, <- (app_nil_r (lines_of _)). unfold LP.
-            rewrite (read_points_written v [] starts_tok_nil). cbn [readline]. reflexivity.
-          * cbn [firstn app]. rewrite lines_of_app, app_assoc, <- lines_of_cons. unfold LP.
-            rewrite (read_points_written v); [| rewrite lines_of_cons; apply line_of_starts; discriminate].
-            rewrite lines_of_cons, readline_line. unfold LC.
-            cbn [String.eqb Ascii.eqb Bool.eqb orb negb].
-            replace (Z.of_nat (S w * List.length t) =? Z.of_nat (S w) * Z.of_nat (List.length t))%Z with true by (symmetry; apply Z.eqb_eq; lia).
-            cbn [negb]. rewrite Nat2Z.id, firstn_map.
-            pose proof (take_nums_short (map cline (firstn j t)) (S w * List.length t)) as HS.
-            rewrite clines_len, firstn_length_le in HS by lia.
-            assert (Hj : (j < List.length t)%nat) by lia.
-            specialize (HS ltac:(nia)).
-            destruct (take_nums (lines_of (map cline (firstn j t))) (S w * List.length t)) as [nums r']. cbn [fst] in HS. rewrite HS. reflexivity.
+        + assert (m = List.length v) by lia. subst m. rewrite firstn_all2 by (rewrite map_length; lia).
+          rewrite Nat.sub_diag. cbn [firstn]. rewrite app_nil_r, <- lines_of_cons, <- (app_nil_r (lines_of _)). unfold LP.
+          rewrite (read_points_written v [] starts_tok_nil). cbn [readline]. reflexivity.
     Qed.
-
-    (* a file with cells of w vertices read with a reader expecting w' <> w vertices per cell yields no mesh *)
-    Lemma vtk_cells_wrong_width (w' : nat) (v : list (K * K * K)) (t : list C) : t <> [] -> w' <> w ->
-      read_vtk_cells round32 zK w' (lines_of (vtk_lines v t)) = None.
+    Lemma vtk_lines_split (v : list (K * K * K)) (t : list C) j :
+      firstn (6 + List.length v + j) (vtk_lines v t)
+      = vtk_header ++ [[TW "POINTS"; TZ (Z.of_nat (List.length v)); TW "float"]] ++ map vline v ++ [cells_line t] ++ firstn j (map cline t).
     Proof.
-      intros Ht Hw. unfold vtk_lines, vtk_header.
-      set (LP := [TW "POINTS"; TZ (Z.of_nat (List.length v)); TW "float"] : list tok) in *.
-      set (LC := [TW "POLYGONS"; TZ (Z.of_nat (List.length t)); TZ (Z.of_nat (S w * List.length t))] : list tok) in *.
-      unfold read_vtk_cells. cbn [app]. rewrite !lines_of_cons.
-      rewrite skip_two; [| unfold line_of; rewrite !app_length; cbn [List.length map]; lia | reflexivity | reflexivity].
-      cbn [find_ascii starts_with_word String.eqb Ascii.eqb Bool.eqb]. rewrite readline_line.
-      cbn [find_ascii starts_with_word String.eqb Ascii.eqb Bool.eqb]. rewrite readline_line.
-      cbn [String.eqb Ascii.eqb Bool.eqb orb negb].
-      rewrite lines_of_app, app_assoc, <- lines_of_cons. unfold LP.
-      rewrite (read_points_written v); [| cbn [app]; rewrite lines_of_cons; apply line_of_starts; discriminate].
-      cbn [app]. rewrite lines_of_cons, readline_line. unfold LC.
-      cbn [String.eqb Ascii.eqb Bool.eqb orb negb].
+      unfold vtk_lines, vtk_header. cbn [app]. replace (6 + List.length v + j)%nat with (S (S (S (S (S (List.length v + S j)))))) by lia.
+      cbn [firstn]. do 5 f_equal. rewrite firstn_app, map_length, firstn_all2 by (rewrite map_length; lia). f_equal.
+      replace (List.length v + S j - List.length v)%nat with (S j) by lia. reflexivity.
+    Qed.
+    (* the cells section cut short *)
+    Lemma body_truncated (t : list C) j : (j < List.length t)%nat ->
+      read_cells_body w (cells_line t) (lines_of (firstn j (map cline t))) = None.
+    Proof.
+      intros Hj. unfold read_cells_body, cells_line. cbn [String.eqb Ascii.eqb Bool.eqb orb negb].
+      replace (Z.of_nat (S w * List.length t) =? Z.of_nat (S w) * Z.of_nat (List.length t))%Z with true by (symmetry; apply Z.eqb_eq; lia).
+      cbn [negb]. rewrite Nat2Z.id, firstn_map.
+      pose proof (take_nums_short (map cline (firstn j t)) (S w * List.length t)) as HS.
+      rewrite clines_len, firstn_length_le in HS by lia. specialize (HS ltac:(nia)).
+      destruct (take_nums (lines_of (map cline (firstn j t))) (S w * List.length t)) as [nums r']. cbn [fst] in HS. rewrite HS. reflexivity.
+    Qed.
+    Lemma body_wrong_width (w' : nat) (t : list C) rest : t <> [] -> w' <> w -> read_cells_body w' (cells_line t) rest = None.
+    Proof.
+      intros Ht Hw. unfold read_cells_body, cells_line. cbn [String.eqb Ascii.eqb Bool.eqb orb negb].
       replace (Z.of_nat (S w * List.length t) =? Z.of_nat (S w') * Z.of_nat (List.length t))%Z with false; [reflexivity|].
       symmetry. apply Z.eqb_neq. destruct t as [|c t]; [contradiction|]. cbn [List.length]. nia.
     Qed.
-  End Trunc.
+    Lemma vtk_lines_full (v : list (K * K * K)) (t : list C) :
+      vtk_lines v t = vtk_header ++ [[TW "POINTS"; TZ (Z.of_nat (List.length v)); TW "float"]] ++ map vline v ++ [cells_line t] ++ map cline t.
+    Proof. reflexivity. Qed.
+    Lemma vtk_lines_length (v : list (K * K * K)) (t : list C) : List.length (vtk_lines v t) = (6 + List.length v + List.length t)%nat.
+    Proof. unfold vtk_lines, vtk_header. rewrite !app_length, !map_length. cbn [List.length]. lia. Qed.
 
-  Theorem vtk_tria_truncated (v : list (K * K * K)) (t : list tri) n : (n < List.length (vtk_lines tline 3 v t))%nat ->
-    read_vtk_tria round32 zK (lines_of (firstn n (vtk_lines tline 3 v t))) = None.
-  Proof. intros H. unfold read_vtk_tria. rewrite (vtk_cells_truncated tline 3 (fun '(a, b, c) => eq_refl) v t n H). reflexivity. Qed.
-  Theorem vtk_tet_truncated (v : list (K * K * K)) (t : list tet) n : (n < List.length (vtk_lines qline 4 v t))%nat ->
-    read_vtk_tet round32 zK (lines_of (firstn n (vtk_lines qline 4 v t))) = None.
-  Proof. intros H. unfold read_vtk_tet. rewrite (vtk_cells_truncated qline 4 (fun '(a, b, c, d) => eq_refl) v t n H). reflexivity. Qed.
+    Lemma vtk_cells_truncated (v : list (K * K * K)) (t : list C) n : (n < List.length (vtk_lines v t))%nat ->
+      read_vtk_cells round32 zK w (lines_of (firstn n (vtk_lines v t))) = None.
+    Proof.
+      intros Hn. rewrite vtk_lines_length in Hn. unfold read_vtk_cells.
+      destruct (Nat.lt_ge_cases n (6 + List.length v)) as [Hlt|Hge].
+      - rewrite pre_truncated by exact Hlt. reflexivity.
+      - replace n with (6 + List.length v + (n - 6 - List.length v))%nat by lia. rewrite vtk_lines_split, pre_ok.
+        rewrite body_truncated by lia. reflexivity.
+    Qed.
+    Lemma vtk_cells_wrong_width (w' : nat) (v : list (K * K * K)) (t : list C) : t <> [] -> w' <> w ->
+      read_vtk_cells round32 zK w' (lines_of (vtk_lines v t)) = None.
+    Proof. intros Ht Hw. unfold read_vtk_cells. rewrite vtk_lines_full, pre_ok, body_wrong_width by assumption. reflexivity. Qed.
+  End Gen.
+
   Lemma write_vtk_tria_lines v t : write_vtk_tria v t = lines_of (vtk_lines tline 3 v t).
   Proof. reflexivity. Qed.
   Lemma write_vtk_tet_lines v t : write_vtk_tet v t = lines_of (vtk_lines qline 4 v t).
   Proof. reflexivity. Qed.
+  Lemma tline_len c : List.length (tline c) = 4%nat. Proof. destruct c as [[a b] c]; reflexivity. Qed.
+  Lemma qline_len c : List.length (qline c) = 5%nat. Proof. destruct c as [[[a b] c] d]; reflexivity. Qed.
+
+  (* the cells section as written *)
+  Lemma body_tria (t : list tri) : t <> [] ->
+    read_cells_body 3 (cells_line 3 t) (lines_of (map tline t)) = Some (map (fun row => map Z.to_nat (tl row)) (map trow t)).
+  Proof.
+    intros Ht. unfold read_cells_body, cells_line. cbn [String.eqb Ascii.eqb Bool.eqb orb negb].
+    replace (Z.of_nat (4 * List.length t) =? Z.of_nat 4 * Z.of_nat (List.length t))%Z with true by (symmetry; apply Z.eqb_eq; lia).
+    cbn [negb]. rewrite Nat2Z.id.
+    rewrite <- (app_nil_r (lines_of (map tline t))), <- tlines_len.
+    rewrite (take_nums_lines _ _ (tlines_num t) (or_introl eq_refl)). rewrite Nat.eqb_refl. cbn [negb].
+    rewrite tlines_tokZ.
+    rewrite (chunkn_concat 4 (map trow t)).
+    - destruct (map trow t) as [|r0 rs] eqn:Em; [destruct t; [contradiction|discriminate]|]. rewrite <- Em.
+      rewrite last_trow by assumption. cbn [Z.of_nat Z.eqb Pos.eqb negb Pos.of_succ_nat Pos.succ]. reflexivity.
+    - lia.
+    - apply Forall_forall. intros r Hr. apply in_map_iff in Hr. destruct Hr as ([[a b] c] & <- & _). reflexivity.
+    - assert (L : List.length (List.concat (map trow t)) = (4 * List.length t)%nat).
+      { clear. induction t as [|[[a b] c] t IH]; [reflexivity|]. cbn [map List.concat trow app List.length]. rewrite IH. lia. }
+      rewrite L, map_length. lia.
+  Qed.
+  Lemma body_tet (t : list tet) : t <> [] ->
+    read_cells_body 4 (cells_line 4 t) (lines_of (map qline t)) = Some (map (fun row => map Z.to_nat (tl row)) (map qrow t)).
+  Proof.
+    intros Ht. unfold read_cells_body, cells_line. cbn [String.eqb Ascii.eqb Bool.eqb orb negb].
+    replace (Z.of_nat (5 * List.length t) =? Z.of_nat 5 * Z.of_nat (List.length t))%Z with true by (symmetry; apply Z.eqb_eq; lia).
+    cbn [negb]. rewrite Nat2Z.id.
+    rewrite <- (app_nil_r (lines_of (map qline t))), <- qlines_len.
+    rewrite (take_nums_lines _ _ (qlines_num t) (or_introl eq_refl)). rewrite Nat.eqb_refl. cbn [negb].
+    rewrite qlines_tokZ.
+    rewrite (chunkn_concat 5 (map qrow t)).
+    - destruct (map qrow t) as [|r0 rs] eqn:Em; [destruct t; [contradiction|discriminate]|]. rewrite <- Em.
+      rewrite last_qrow by assumption. cbn [Z.of_nat Z.eqb Pos.eqb negb Pos.of_succ_nat Pos.succ]. reflexivity.
+    - lia.
+    - apply Forall_forall. intros r Hr. apply in_map_iff in Hr. destruct Hr as ([[[a b] c] d] & <- & _). reflexivity.
+    - assert (L : List.length (List.concat (map qrow t)) = (5 * List.length t)%nat).
+      { clear. induction t as [|[[[a b] c] d] t IH]; [reflexivity|]. cbn [map List.concat qrow app List.length]. rewrite IH. lia. }
+      rewrite L, map_length. lia.
+  Qed.
+
+  (* the triangle reader on a file whose cells line is a POLYGONS line: the strips branch is not taken *)
+  Lemma tria_reader_polygons {C} (cline : C -> list tok) w (v : list (K * K * K)) (t : list C) rest :
+    read_vtk_tria round32 zK (lines_of (vtk_header ++ [[TW "POINTS"; TZ (Z.of_nat (List.length v)); TW "float"]] ++ map vline v
+                                         ++ [cells_line w t] ++ rest))
+    = match read_cells_body 3 (cells_line w t) (lines_of rest) with
+      | Some rows => match rows3 rows with Some t' => Some (map r3 v, t') | None => None end
+      | None => None
+      end.
+  Proof. unfold read_vtk_tria. rewrite (pre_ok w v t rest). unfold cells_line at 1. cbn [String.eqb Ascii.eqb Bool.eqb]. reflexivity. Qed.
+
+  (* ---- C14: what write_vtk writes, read_vtk reads back: identical connectivity, coordinates rounded to single precision *)
+  Theorem vtk_tria_round_trip (v : list (K * K * K)) (t : list tri) : t <> [] ->
+    read_vtk_tria round32 zK (write_vtk_tria v t) = Some (map r3 v, t).
+  Proof.
+    intros Ht. rewrite write_vtk_tria_lines, (vtk_lines_full tline 3), (tria_reader_polygons tline 3), body_tria, rows3_back by exact Ht. reflexivity.
+  Qed.
+  Theorem vtk_tet_round_trip (v : list (K * K * K)) (t : list tet) : t <> [] ->
+    read_vtk_tet round32 zK (write_vtk_tet v t) = Some (map r3 v, t).
+  Proof.
+    intros Ht. rewrite write_vtk_tet_lines, (vtk_lines_full qline 4). unfold read_vtk_tet, read_vtk_cells.
+    rewrite (pre_ok 4 v t), body_tet, rows4_back by exact Ht. reflexivity.
+  Qed.
+
+  (* ---- truncation: every proper line-prefix of a written VTK file is rejected (no mesh) *)
+  Theorem vtk_tria_truncated (v : list (K * K * K)) (t : list tri) n : (n < List.length (vtk_lines tline 3 v t))%nat ->
+    read_vtk_tria round32 zK (lines_of (firstn n (vtk_lines tline 3 v t))) = None.
+  Proof.
+    intros Hn. rewrite vtk_lines_length in Hn.
+    destruct (Nat.lt_ge_cases n (6 + List.length v)) as [Hlt|Hge].
+    - unfold read_vtk_tria. rewrite pre_truncated by exact Hlt. reflexivity.
+    - replace n with (6 + List.length v + (n - 6 - List.length v))%nat by lia. rewrite vtk_lines_split.
+      rewrite (tria_reader_polygons tline 3), (body_truncated tline 3 tline_len) by lia. reflexivity.
+  Qed.
+  Theorem vtk_tet_truncated (v : list (K * K * K)) (t : list tet) n : (n < List.length (vtk_lines qline 4 v t))%nat ->
+    read_vtk_tet round32 zK (lines_of (firstn n (vtk_lines qline 4 v t))) = None.
+  Proof. intros H. unfold read_vtk_tet. rewrite (vtk_cells_truncated qline 4 qline_len v t n H). reflexivity. Qed.
+
+
+  (* ---- VTK files with TRIANGLE_STRIPS written by other tools: a strip p0 .. p(n-1) stands for the n-2 triangles
+          (pj, pj+1, pj+2), every second one with its first two corners exchanged *)
+  Definition strip_line (l : list nat) : list tok := TZ (Z.of_nat (List.length l)) :: map (fun i => TZ (Z.of_nat i)) l.
+  Definition strips_line (ss : list (list nat)) (total : Z) : list tok := [TW "TRIANGLE_STRIPS"; TZ (Z.of_nat (List.length ss)); TZ total].
+  (* the format definition, by position in the strip *)
+  Definition strip_spec (l : list nat) : list tri :=
+    map (fun j => if Nat.even j then (nth j l 0, nth (S j) l 0, nth (S (S j)) l 0)%nat else (nth (S j) l 0, nth j l 0, nth (S (S j)) l 0)%nat)
+        (iota (List.length l - 2)).
+
+  Lemma map_iota_from_S {A} (h : nat -> A) n : forall s, map h (iota_from (S s) n) = map (fun j => h (S j)) (iota_from s n).
+  Proof. induction n as [|n IH]; intros s; [reflexivity|]. cbn [iota_from map]. rewrite IH. reflexivity. Qed.
+  Lemma strip_trias_step ev a b c l :
+    strip_trias ev (a :: b :: c :: l) = (if ev then (a, b, c) else (b, a, c)) :: strip_trias (negb ev) (b :: c :: l).
+  Proof. reflexivity. Qed.
+  Lemma strip_trias_by_position : forall l k,
+    strip_trias (Nat.even k) l
+    = map (fun j => if Nat.even (k + j) then (nth j l 0, nth (S j) l 0, nth (S (S j)) l 0)%nat else (nth (S j) l 0, nth j l 0, nth (S (S j)) l 0)%nat)
+          (iota_from 0 (List.length l - 2)).
+  Proof.
+    induction l as [|a l IH]; intros k; [reflexivity|].
+    destruct l as [|b [|c l']]; [reflexivity|reflexivity|].
+    rewrite strip_trias_step. cbn [List.length]. replace (S (S (S (List.length l'))) - 2)%nat with (S (List.length l')) by lia.
+    cbn [iota_from map]. rewrite Nat.add_0_r. cbn [nth]. f_equal.
+    rewrite map_iota_from_S.
+    replace (negb (Nat.even k)) with (Nat.even (S k)) by (rewrite Nat.even_succ, <- Nat.negb_even; reflexivity).
+    rewrite (IH (S k)). cbn [List.length]. replace (S (S (List.length l')) - 2)%nat with (List.length l') by lia.
+    apply map_ext. intros j. replace (k + S j)%nat with (S k + j)%nat by lia. reflexivity.
+  Qed.
+  Theorem strip_trias_is_spec l : strip_trias true l = strip_spec l.
+  Proof. unfold strip_spec, iota. change true with (Nat.even 0). rewrite (strip_trias_by_position l 0). reflexivity. Qed.
+
+  Lemma read_strips_written (ss : list (list nat)) :
+    read_strips (List.length ss) (lines_of (map strip_line ss)) = Some (List.concat (map (strip_trias true) ss)).
+  Proof.
+    induction ss as [|l ss IH]; [reflexivity|]. cbn [List.length map read_strips]. rewrite lines_of_cons, readline_line.
+    unfold strip_line at 1. rewrite map_length, Nat2Z.id, Nat.eqb_refl.
+    replace (Z.of_nat (List.length l) <? 0)%Z with false by (symmetry; apply Z.ltb_ge; lia). cbn [negb orb].
+    assert (E : all_some (map (tokZ (K:=K)) (map (fun i => TZ (Z.of_nat i)) l)) = Some (map Z.of_nat l)).
+    { clear. induction l as [|x l IH]; [reflexivity|]. cbn [map all_some tokZ]. rewrite IH. reflexivity. }
+    rewrite E, IH. cbn [List.concat]. rewrite map_map. rewrite (map_ext _ (fun x => x)) by (intros; apply Nat2Z.id). rewrite map_id. reflexivity.
+  Qed.
+
+  Definition strips_file (v : list (K * K * K)) (ss : list (list nat)) (total : Z) : list (list tok) :=
+    vtk_header ++ [[TW "POINTS"; TZ (Z.of_nat (List.length v)); TW "float"]] ++ map vline v ++ [strips_line ss total] ++ map strip_line ss.
+  Theorem vtk_strips_file_loads (v : list (K * K * K)) (ss : list (list nat)) total :
+    List.concat (map strip_spec ss) <> [] ->
+    read_vtk_tria round32 zK (lines_of (strips_file v ss total)) = Some (map r3 v, List.concat (map strip_spec ss)).
+  Proof.
+    intros Hne. unfold strips_file, read_vtk_tria. rewrite (pre_ok_gen v (strips_line ss total)) by discriminate.
+    unfold strips_line. cbn [String.eqb Ascii.eqb Bool.eqb]. rewrite Nat2Z.id, read_strips_written.
+    rewrite (map_ext _ _ strip_trias_is_spec).
+    destruct (List.concat (map strip_spec ss)) as [|t0 ts]; [contradiction|].
+    replace (Z.of_nat (List.length ss) <? 0)%Z with false by (symmetry; apply Z.ltb_ge; lia). reflexivity.
+  Qed.
 
   (* ---- OFF files written by other tools according to the format definition: OFF / counts / vertices / faces "3 a b c",
           with any number of leading comment lines *)
@@ -413,7 +486,10 @@ Section P.
   (* wrong kind of file: a tetrahedral VTK file is rejected by the triangle reader and vice versa; a VTK file is not an OFF file *)
   Theorem vtk_tet_file_rejected_by_tria_reader (v : list (K * K * K)) (t : list tet) : t <> [] ->
     read_vtk_tria round32 zK (write_vtk_tet v t) = None.
-  Proof. intros H. rewrite write_vtk_tet_lines. unfold read_vtk_tria. rewrite (vtk_cells_wrong_width qline 4 3 v t H); [reflexivity|lia]. Qed.
+  Proof.
+    intros H. rewrite write_vtk_tet_lines, (vtk_lines_full qline 4), (tria_reader_polygons qline 4).
+    rewrite (body_wrong_width 4 3 t _ H) by lia. reflexivity.
+  Qed.
   Theorem vtk_tria_file_rejected_by_tet_reader (v : list (K * K * K)) (t : list tri) : t <> [] ->
     read_vtk_tet round32 zK (write_vtk_tria v t) = None.
   Proof. intros H. rewrite write_vtk_tria_lines. unfold read_vtk_tet. rewrite (vtk_cells_wrong_width tline 3 4 v t H); [reflexivity|lia]. Qed.
